@@ -1,4 +1,5 @@
 """C20 - passwords never reach the logs."""
+import asyncio
 import json
 import logging
 import random
@@ -24,6 +25,9 @@ PASSWORDS = {
 }
 SPELLINGS = ["PASS", "pass", "PaSs", "pAsS"]
 OUTCOMES = ["accepted", "rejected", "out-of-sequence", "after-login"]
+# what happens right after the PASS exchange: nothing special, or an error path of the dispatcher
+# (idle timeout, undecodable line, peer reset, server shutdown) while PASS is the last command seen
+AFTER = ["pwd-quit", "idle-timeout", "garbage", "reset", "server-close"]
 
 
 class Cap(logging.Handler):
@@ -42,7 +46,7 @@ class Cap(logging.Handler):
 
 
 def one_run(args):
-    pw, spelling, outcome, via_client = args
+    pw, spelling, outcome, via_client, after = args
     cap = Cap()
     root = logging.getLogger()
     olds = (root.level, logging.getLogger("aioftp.client").level, logging.getLogger("aioftp.server").level)
@@ -51,7 +55,7 @@ def one_run(args):
     for n in ("aioftp.client", "aioftp.server", "asyncio"):
         logging.getLogger(n).setLevel(logging.DEBUG)
     users = [{"id": "u1", "login": "u1", "pw": pw if outcome != "rejected" else pw + "-not", "max": 0, "perms": [], "home": [], "base": ["A"]}]
-    cfg = gen.std_cfg(ns=1, users=users)
+    cfg = gen.std_cfg(ns=1, users=users, idle=1000 if after == "idle-timeout" else 0)
     observed = {}
     sent = {}
 
@@ -81,8 +85,19 @@ def one_run(args):
             observed["o"] = {"230": "accepted", "530": "rejected", "503": "out-of-sequence" if outcome == "out-of-sequence" else "after-login"}.get(str(code), "?" + str(code))
             sent["n"] = len(pw.rstrip())
         try:
-            await c.command("PWD", ("2xx", "5xx"))
-            await c.quit()
+            if after == "pwd-quit":
+                await c.command("PWD", ("2xx", "5xx"))
+                await c.quit()
+            elif after == "idle-timeout":
+                await asyncio.sleep(3)
+            elif after == "garbage":
+                await c.stream.write(b"\xff\xfe\xfd\r\n")
+                await asyncio.sleep(1)
+            elif after == "reset":
+                c.stream.writer.transport.abort()
+                await asyncio.sleep(1)
+            elif after == "server-close":
+                await w.server.close()
         except Exception:
             pass
         return True
@@ -124,17 +139,20 @@ def run(tier, seed):
     for cls, (pw, twin) in PASSWORDS.items():
         for outcome in OUTCOMES:
             # through the real client (spelling is the client's own) and on the raw wire with every spelling
-            if outcome != "out-of-sequence":
-                plan.append((cls, pw, twin, "PASS", outcome, True))
-            for sp in (SPELLINGS if tier != "quick" else SPELLINGS[:3]):
-                plan.append((cls, pw, twin, sp, outcome, False))
+            for after in AFTER:
+                if after != "pwd-quit" and tier == "quick" and rng.random() < 0.5:
+                    continue
+                if outcome != "out-of-sequence":
+                    plan.append((cls, pw, twin, "PASS", outcome, True, after))
+                for sp in (SPELLINGS if tier != "quick" and after == "pwd-quit" else SPELLINGS[:3] if after == "pwd-quit" else [rng.choice(SPELLINGS)]):
+                    plan.append((cls, pw, twin, sp, outcome, False, after))
     jobs = []
-    for cls, pw, twin, sp, outcome, via in plan:
-        jobs.append((pw, sp, outcome, via))
-        jobs.append((twin, sp, outcome, via))
+    for cls, pw, twin, sp, outcome, via, after in plan:
+        jobs.append((pw, sp, outcome, via, after))
+        jobs.append((twin, sp, outcome, via, after))
     results = corecheck.pool().map(one_run, jobs, chunksize=4)
     cases = []
-    for k, (cls, pw, twin, sp, outcome, via) in enumerate(plan):
+    for k, (cls, pw, twin, sp, outcome, via, after) in enumerate(plan):
         a, b = results[2 * k], results[2 * k + 1]
         if a["crash"] or b["crash"]:
             raise RuntimeError("harness failure: %s" % (a["crash"] or b["crash"]))
@@ -144,11 +162,11 @@ def run(tier, seed):
     chk.cov["evaluations"] += len(jobs)
     bad = judge.judge("LoginLog", cases, chk)
     for i in sorted(bad):
-        cls, pw, twin, sp, outcome, via = plan[i]
+        cls, pw, twin, sp, outcome, via, after = plan[i]
         leak = [r for r in cases[i]["records"] if "<PW>" in r["toks"]]
         chk.violation({"at": "login-log", "class": cls, "leak": bool(leak)},
-                      {"spelling": sp, "outcome": outcome, "via_client": via, "observed": cases[i]["observed"], "leaking_records": leak[:3],
-                       "msgs": cases[i]["msgs"][:40]}, {"password_class": cls, "spelling": sp, "outcome": outcome, "via_client": via})
+                      {"spelling": sp, "outcome": outcome, "via_client": via, "after": after, "observed": cases[i]["observed"], "leaking_records": leak[:3],
+                       "msgs": cases[i]["msgs"][:40]}, {"password_class": cls, "spelling": sp, "outcome": outcome, "via_client": via, "after": after})
     chk.cov["traces_validated_against_impl"] = len(cases)
     chk.cov["rule"] = ("password classes (plain, inner spaces, leading blank, non-ASCII, one character, %%s/%%d/{} directives, percent "
                        "signs, braces, long, stars, command look-alike) x login outcomes (accepted, rejected, out of sequence, after login) x "
